@@ -53,6 +53,7 @@ type c26Params struct {
 	Muts      int  // ground-truth datastore mutations
 	Depth     int
 	BadValue  bool // allow a value the UpdateProcessor cannot convert
+	Tree      bool // no state merging (guard against an unsound state key)
 	replayLen int
 }
 
@@ -776,7 +777,7 @@ func c26Check(c *vk.Ctx, s *c26Inst, hist []c26Ev) []hbfs.Fail {
 }
 
 func c26Spec(c *vk.Ctx, p c26Params) *hbfs.Spec[*c26Inst, c26Ev] {
-	return &hbfs.Spec[*c26Inst, c26Ev]{
+	sp := &hbfs.Spec[*c26Inst, c26Ev]{
 		Name:       p.Name,
 		New:        func() *c26Inst { return c26New(p) },
 		Apply:      c26Apply,
@@ -813,23 +814,40 @@ func c26Spec(c *vk.Ctx, p c26Params) *hbfs.Spec[*c26Inst, c26Ev] {
 			return "C26:panic:" + v
 		},
 	}
+	if p.Tree {
+		sp.Key = nil
+	}
+	return sp
 }
 
-func c26Specs(c *vk.Ctx) []c26Params {
-	if c.Quick() {
-		return []c26Params{
-			{Name: "wsync-eager-burst-dev2-mut1", Eager: true, Devs: 2, Muts: 1, Depth: 11},
+func c26AllSpecs() map[string][]c26Params {
+	return map[string][]c26Params{
+		"quick": {
+			{Name: "wsync-eager-burst-dev2-mut2", Eager: true, Devs: 2, Muts: 2, Depth: 12, BadValue: true},
 			{Name: "wsync-eager-each-dev1-mut2", Eager: true, FlushEach: true, Devs: 1, Muts: 2, Depth: 11, BadValue: true},
 			{Name: "wsync-full-dev1-mut1", Devs: 1, Muts: 1, Depth: 12},
-		}
+			{Name: "wsync-eager-burst-dev1-mut1-tree", Eager: true, Devs: 1, Muts: 1, Depth: 6, Tree: true},
+		},
+		"thorough": {
+			{Name: "wsync-eager-burst-dev3-mut1", Eager: true, Devs: 3, Muts: 1, Depth: 14},
+			{Name: "wsync-eager-burst-dev3-mut2", Eager: true, Devs: 3, Muts: 2, Depth: 16, BadValue: true},
+			{Name: "wsync-eager-each-dev2-mut2", Eager: true, FlushEach: true, Devs: 2, Muts: 2, Depth: 14, BadValue: true},
+			{Name: "wsync-full-dev2-mut1", Devs: 2, Muts: 1, Depth: 16},
+			{Name: "wsync-full-dev1-mut2", Devs: 1, Muts: 2, Depth: 16, BadValue: true},
+			{Name: "wsync-eager-burst-dev2-mut1-tree", Eager: true, Devs: 2, Muts: 1, Depth: 7, Tree: true},
+			{Name: "wsync-full-dev1-mut1-tree", Devs: 1, Muts: 1, Depth: 7, Tree: true},
+		},
 	}
-	return []c26Params{
-		{Name: "wsync-eager-burst-dev3-mut1", Eager: true, Devs: 3, Muts: 1, Depth: 14},
-		{Name: "wsync-eager-burst-dev2-mut2", Eager: true, Devs: 2, Muts: 2, Depth: 14, BadValue: true},
-		{Name: "wsync-eager-each-dev2-mut2", Eager: true, FlushEach: true, Devs: 2, Muts: 2, Depth: 14, BadValue: true},
-		{Name: "wsync-full-dev2-mut1", Devs: 2, Muts: 1, Depth: 16},
-		{Name: "wsync-full-dev1-mut2", Devs: 1, Muts: 2, Depth: 16, BadValue: true},
+}
+
+func c26Specs(c *vk.Ctx) []c26Params { return c26AllSpecs()[c.Tier()] }
+
+func c26SpecsBoth() []c26Params {
+	var out []c26Params
+	for _, ps := range c26AllSpecs() {
+		out = append(out, ps...)
 	}
+	return out
 }
 
 func TestVerif_C26(t *testing.T) {
@@ -886,19 +904,4 @@ func TestVerif_C26(t *testing.T) {
 			hbfs.Explore(c, c26Spec(c, p))
 		}
 	})
-}
-
-func c26SpecsBoth() []c26Params {
-	var out []c26Params
-	out = append(out,
-		c26Params{Name: "wsync-eager-burst-dev2-mut1", Eager: true, Devs: 2, Muts: 1},
-		c26Params{Name: "wsync-eager-each-dev1-mut2", Eager: true, FlushEach: true, Devs: 1, Muts: 2, BadValue: true},
-		c26Params{Name: "wsync-full-dev1-mut1", Devs: 1, Muts: 1},
-		c26Params{Name: "wsync-eager-burst-dev3-mut1", Eager: true, Devs: 3, Muts: 1},
-		c26Params{Name: "wsync-eager-burst-dev2-mut2", Eager: true, Devs: 2, Muts: 2, BadValue: true},
-		c26Params{Name: "wsync-eager-each-dev2-mut2", Eager: true, FlushEach: true, Devs: 2, Muts: 2, BadValue: true},
-		c26Params{Name: "wsync-full-dev2-mut1", Devs: 2, Muts: 1},
-		c26Params{Name: "wsync-full-dev1-mut2", Devs: 1, Muts: 2, BadValue: true},
-	)
-	return out
 }
